@@ -551,7 +551,7 @@ func genD3(c *ev.Ctx, env *decEnv, emit decEmit) {
 					if P > 0 {
 						di += P + 4
 					}
-					offs := []int{1, 2, 7, 8, 9, 15, 16, 17, 18, L, di, di + dk}
+					offs := []int{1, 2, 7, 8, 9, 15, 16, 17, 18, 19, 20, 22, L, di - 1, di, di + dk} // 19..di-1: offsets at or above the longest match the shortcuts may take, still inside the output
 					seen := map[int]bool{}
 					for _, off := range offs {
 						if off <= 0 || off > di+dk || seen[off] {
